@@ -14,7 +14,8 @@ RULE = (
     "x = 0, value exponents {-300, -12..12, 300} (quick -3..3), error/value "
     "exponent offsets -12..12 (quick -4..4), plus sparser sweeps at value / "
     "error exponents +-{16,17,99,100,101,200,300} (printed-width changes and "
-    "the ends of the float range); each formatted string is read "
+    "the ends of the float range), and every value exponent -306..306 with 5 "
+    "mantissas x 4 offsets x 4 errors x both signs; each formatted string is read "
     "back by an independent regex + Decimal reader; non-trivial = every "
     "point (each is a distinct (x, err) pair)"
 )
@@ -84,6 +85,11 @@ def tasks(tier):
         for sign in (1, -1):
             out.append({"xexp": xe, "sign": sign, "offs": [-3, -1, 0, 1, 2, 4],
                         "tier": tier, "sparse": True})
+    # every decimal exponent a float can have, with a few mantissas each (a
+    # table of powers of ten, or a string trick, can go wrong at any one)
+    allx = [xe for xe in range(-306, 307) if xe not in xexps and xe not in far]
+    for chunk in core.chunked(allx, 24):
+        out.append({"xexps": chunk, "tier": tier})
     out.append({"zero": True, "tier": tier})
     return out
 
@@ -155,6 +161,33 @@ def run_task(task):
                          "string": format_number_with_error(0.0, 1.5e-3)}
         out["shapes"] = len(out["shapes"])
         return out
+    if "xexps" in task:
+        ms = ("1", "1.2812412309", "4.999", "9.4", "9.9995")
+        for xe in task["xexps"]:
+            for off in (-3, -1, 0, 2):
+                ee = xe + off
+                if not -320 < ee < 305:
+                    continue
+                for em in ("1.00", "2.35", "7.9", "9.96"):
+                    err = float("%se%d" % (em, ee))
+                    for x in [sg * float("%se%d" % (m, xe)) for m in ms
+                              for sg in (1, -1)]:
+                        out["n"] += 1
+                        try:
+                            s = format_number_with_error(x, err)
+                        except Exception as e:
+                            out["vio"].setdefault(
+                                "C20|allexp|raised:%s" % type(e).__name__,
+                                ([x, err], repr(e)))
+                            continue
+                        j = judge(x, err, s)
+                        if j:
+                            out["vio"].setdefault(
+                                "C20|allexp|%s|e%+d" % (j[0], xe // 25 * 25),
+                                ([x, err], j[1]))
+        out["sample"] = None
+        out["shapes"] = 0
+        return out
     xe, sign = task["xexp"], task["sign"]
     xs = [sign * float("%se%d" % (m, xe)) for m in x_mantissas()]
     for off in task["offs"]:
@@ -202,7 +235,8 @@ def run(ctx):
         n += out["n"]
         for k, (c, w) in out["vio"].items():
             ctx.violation(k, w, {"x": c[0], "err": c[1]})
-        ctx.sample(out["sample"], limit=5)
+        if out["sample"]:
+            ctx.sample(out["sample"], limit=5)
         ctx.outcomes["ok"] = ctx.outcomes.get("ok", 0) + out["n"] - len(out["vio"])
         if out["vio"]:
             ctx.outcomes["bad"] = ctx.outcomes.get("bad", 0) + len(out["vio"])
